@@ -840,8 +840,7 @@ impl JsonValueMutTrait for Value {
     where
         P::Item: Index,
     {
-        let mut path = path.into_iter();
-        let mut value = self.get_mut(path.next().unwrap())?;
+        let mut value = self;
         for index in path {
             value = value.get_mut(index)?;
         }
